@@ -523,6 +523,34 @@ func c33(c *core.Ctx) {
 					}
 				}
 			}
+			if !byEqual {
+				// `a.Equal(null) || a.Equal(b)`: several ways into the return, each the true edge of an Equal call —
+				// decided over all paths: can the return be reached from the entry without taking such an edge?
+				equalEdge := func(a, b *ssa.BasicBlock) bool {
+					ifi, ok := a.Instrs[len(a.Instrs)-1].(*ssa.If)
+					if !ok || len(a.Succs) != 2 {
+						return false
+					}
+					v, pos := ifi.Cond, true
+					for {
+						if u, ok := v.(*ssa.UnOp); ok && u.Op == token.NOT {
+							v, pos = u.X, !pos
+							continue
+						}
+						break
+					}
+					call, isCall := ssax.Strip(v).(*ssa.Call)
+					if !isCall {
+						return false
+					}
+					if cal := ssax.Callee(call); cal == nil || cal.Name() != "Equal" {
+						return false
+					}
+					return (b == a.Succs[0]) == pos
+				}
+				other, _ := ssax.Reach(srt, nil, func(in ssa.Instruction) bool { return in == ssa.Instruction(r) }, nil, equalEdge)
+				byEqual = !other
+			}
 			c.Ob("C33.nullref", fname(srt)+"·return true", pos(c, r), byEqual, "on the true edge of a NodeID.Equal comparison: "+boolStr(byEqual))
 		}
 		if n == 0 {
